@@ -543,26 +543,17 @@ def norm (S : Schema) (d tag : Nat) (v : Val) : Val :=
   | some (v', _) => v'
   | none => v
 
-/-- `unmarshal` with an explicit fuel (`unmarshal S d tag bs = unmarshalFuel S (bs.length + 8) d tag bs`). -/
-def unmarshalFuel (S : Schema) (fuel : Nat) (d : Nat) (tag : Nat) (bs : Bytes) : Res Val := do
-  let c ← Cur.start bs
-  let dy := S.dyn d
-  let tag := if tag = 0 then dy.defTag else tag
-  let k := match dy.kind with | .ptr k' => k' | k' => k'
-  let (x, _, _) ← decK S fuel k tag c none
-  pure (match dy.kind with | .ptr _ => Val.ptr (some x) | _ => x)
+/-- `unmarshal` with an explicit fuel (the model's `unmarshalWith`). -/
+abbrev unmarshalFuel := unmarshalWith
 
 /-- a well-formed value of dynamic type `d` (to be sent under `tag`):
-    * `WellFormed`: shape, integer ranges, dynamic types, version conformance (the executable walk);
-    * the items the encoder produces are representable on the wire (tags in `(0, 2^24)`, lengths
-      `< 2^32`): stated on the encoder's output;
-    * (model artefact) the fuel of the model's `unmarshal`, `bs.length + 8`, covers `v.depth`. -/
+    * `wellFormed`: shape, integer ranges, dynamic types, version conformance (the executable walk);
+    * `inRange`: the items the encoder produces are representable on the wire (tags in `(0, 2^24)`,
+      lengths `< 2^32`): stated on the encoder's output. -/
 structure Conforms (S : Schema) (d tag : Nat) (v : Val) : Prop where
   wellFormed : (normTop S d tag v).isSome = true
   inRange : ∀ items ver', encK S marshalFuel (S.dyn d).kind (topTag S d tag) v none = .ok (items, ver') →
       Item.AllInRange items
-  fuel : ∀ items ver', encK S marshalFuel (S.dyn d).kind (topTag S d tag) v none = .ok (items, ver') →
-      v.depth ≤ (encList items).length + 8
 
 /-! ## 6. "equal in content" -/
 
